@@ -236,6 +236,13 @@ fn abstract_term(r: &mut Rng, t: &Tm, vars: &mut Vec<(String, Tm)>, depth: usize
     PT::Node { op: t.op, slots: t.slots.iter().map(|s| map(*s)).collect(), kids: t.kids.iter().map(|(bs, k)| (bs.iter().map(|b| map(*b)).collect(), abstract_term(r, k, vars, depth + 1))).collect() }
 }
 
+fn identify_slot(p: &PT, a: Name, b: Name) -> PT {
+    match p {
+        PT::Var(v) => PT::Var(v.clone()),
+        PT::Node { op, slots, kids } => PT::Node { op, slots: slots.iter().map(|s| if *s == a { b } else { *s }).collect(), kids: kids.iter().map(|(bs, k)| (bs.clone(), identify_slot(k, a, b))).collect() },
+    }
+}
+
 pub fn c05_case(rng: &mut Rng) -> CaseOut {
     let mut out = CaseOut::default();
     let wr = rng.chance(1, 2);
@@ -246,9 +253,28 @@ pub fn c05_case(rng: &mut Rng) -> CaseOut {
     let mut validated_multi_node = 0u64;
     for round in 0..6 {
         // ---- single patterns
-        let pt = if round % 2 == 0 && !terms.is_empty() {
+        let pt = if round % 3 == 0 && !terms.is_empty() {
             let t = terms[rng.below(terms.len())].canon();
             abstract_term(rng, &t, &mut vec![], 0)
+        } else if round % 3 == 1 && !terms.is_empty() {
+            // an abstraction of an inserted term in which two different slots are identified: the term itself is no instance
+            // any more (unless a symmetry or redundancy makes it one); a matcher that loses injectivity of the slot map reports it
+            let t = terms[rng.below(terms.len())].canon();
+            let p = abstract_term(rng, &t, &mut vec![], 0);
+            let mut fs = BTreeSet::new();
+            p.free_slots(&mut vec![], &mut fs);
+            let fs: Vec<Name> = fs.into_iter().collect();
+            if fs.len() >= 2 {
+                let a = fs[rng.below(fs.len())];
+                let mut b = fs[rng.below(fs.len())];
+                if a == b {
+                    b = fs[(fs.iter().position(|x| *x == a).unwrap() + 1) % fs.len()];
+                }
+                out.inc("patterns_with_identified_slots");
+                identify_slot(&p, a, b)
+            } else {
+                p
+            }
         } else {
             let d = rng.range(0, 2);
             gen_pattern(rng, d, 3, &mut 200, &mut vec![], &mut vec![], PAT_OPS)
